@@ -4,7 +4,9 @@
 
 use monitor::checks::Budget;
 use monitor::check_case;
-use monitor_core::{run_history, Op, Sink, VTable, Val, D};
+use monitor_core::{run_history, run_history_ord, Op, Sink, VTable, Val, D};
+#[allow(unused_imports)]
+use run_history_ord as _;
 use std::sync::atomic::{AtomicU32, Ordering::SeqCst};
 
 static FAULT: AtomicU32 = AtomicU32::new(0);
@@ -223,7 +225,7 @@ fn names(ops: &[Op], sink: &mut dyn Sink) {
         v = MODEL.iter().map(|x| Val::S(x.1)).collect(); // declaration order
     }
     let hi = v.len();
-    run_history(It { v, lo: 0, hi }, ops, id, sink)
+    run_history_ord(It { v, lo: 0, hi }, ops, id, sink)
 }
 
 fn zip(sink: &mut dyn Sink) {
@@ -278,7 +280,12 @@ fn verdict(prop: &str) -> (u64, u64, Vec<String>) {
 #[test]
 fn oracles_fire_on_their_own_fault_and_only_then() {
     // silence the default panic output of the deliberate D2-style panic
-    std::panic::set_hook(Box::new(|_| {}));
+    std::panic::set_hook(Box::new(|info| {
+        // only the self-test's own assertion failures are shown
+        if info.location().map_or(false, |l| l.file().ends_with("selftest.rs") && l.line() > 260) {
+            eprintln!("{info}");
+        }
+    }));
     let props = ["C01", "C03", "C04", "C05", "C06", "C07", "C08"];
     FAULT.store(0, SeqCst);
     for p in props {
